@@ -98,6 +98,67 @@ def content_of(ty):
     return m[-1] if m else None
 
 
+SER_IMPL = re.compile(r"<impl serde_core::ser::Serialize for (.*)>::serialize$")
+
+
+def unique_keys_rule(ctx, w):
+    """C18.unique-keys: a derived Serialize never writes one key twice into the same JSON object. serde_json writes duplicate keys as they come,
+    and reading the text back then fails (`duplicate field`) or, under an untagged fallback, silently lands in another variant. Two compositions
+    can duplicate a key although each type is fine alone: (1) an internally tagged enum writes its tag and then the fields of a newtype variant's
+    payload - the payload must not write that key itself (own `tag`, or a field of that name); (2) a `flatten`ed field's keys are written into
+    the parent's object - they must be disjoint from the parent's own keys."""
+    ctx.rule("C18.unique-keys", "derived Serialize of ruma-common / ruma-events: the tag of an internally tagged enum is not also written by the payload type of a newtype "
+                                "variant, and the constant keys of a flattened field's type are disjoint from the keys of the struct it is flattened into")
+    impls = {}
+    for fn in w.all_fns():
+        m_ = SER_IMPL.search(fn["path"]) if "body" in fn else None
+        if m_:
+            impls[m_.group(1)] = fn
+
+    def keys_of(ty):
+        fn = impls.get(ty)
+        if fn is None:
+            return None
+        keys = set()
+        for body in M.all_bodies(fn):
+            for _, c in M.calls(body):
+                n_ = M.callee_name(c)
+                last = n_.rsplit("::", 1)[-1]
+                if last in ("serialize_field", "serialize_entry") and len(c["args"]) >= 2 and c["args"][1].get("k") == "const" and isinstance(c["args"][1].get("v"), str):
+                    keys.add(c["args"][1]["v"])
+                if last == "serialize_tagged_newtype" and len(c["args"]) >= 5 and c["args"][3].get("k") == "const":
+                    keys.add(c["args"][3]["v"])
+        return keys
+    n_tag, n_flat = 0, 0
+    for ty, fn in sorted(impls.items()):
+        own = keys_of(ty)
+        for body in M.all_bodies(fn):
+            for _, c in M.calls(body):
+                n_ = M.callee_name(c)
+                fa = c.get("fnargs") or []
+                if n_.endswith("::serialize_tagged_newtype") and len(c["args"]) >= 6 and c["args"][3].get("k") == "const" and len(fa) >= 2:
+                    n_tag += 1
+                    tag, variant, payload = c["args"][3]["v"], c["args"][2].get("v"), fa[1].lstrip("&")
+                    pk = keys_of(payload)
+                    if pk is None:
+                        ctx.ok("C18.unique-keys", f"C18.unique-keys:tag:{ty}::{variant}", w.where(fn), f"payload {payload} has no derived Serialize in the analysed crates", nontrivial=False)
+                    else:
+                        ctx.check(tag not in pk, "C18.unique-keys", f"C18.unique-keys:tag:{ty}::{variant}", w.where(impls[payload]),
+                                  bad_msg=f"{ty}::{variant} is written as the tag `{tag}` followed by the fields of {payload}, and {payload} writes the key `{tag}` "
+                                          f"itself: the JSON object has the key twice (reading it back fails or falls through to an untagged variant)")
+                elif n_.endswith("::serialize") and any("FlatMapSerializer" in x for x in fa) and fa:
+                    child = fa[0].lstrip("&")
+                    ck = keys_of(child)
+                    if ck is None:
+                        continue        # a map / Option / type without derived Serialize: keys are data
+                    n_flat += 1
+                    both = sorted((own or set()) & ck)
+                    ctx.check(not both, "C18.unique-keys", f"C18.unique-keys:flatten:{ty}<-{child}", w.where(fn),
+                              bad_msg=f"{ty} flattens {child}, which writes key(s) {both} that {ty} writes too")
+    ctx.floor("internally tagged newtype variants", n_tag, 10)
+    ctx.floor("flattened fields with a derived Serialize", n_flat, 5)
+
+
 def run(ctx):
     thorough = ctx.tier == "thorough"
     fx = ctx.facts("A")
@@ -257,6 +318,7 @@ def run(ctx):
     ctx.count("types_with_skippable_fields", len(skip))
     ctx.count("types_with_required_fields", len(req))
     ctx.floor("derived types with skippable fields", len(skip), 50)
+    unique_keys_rule(ctx, w)
     # ---- nothing is read as a borrowed string -----------------------------------------------------------------------------------------------
     ctx.rule("C18.no-borrowed-str", "no field or element is requested from the deserializer as `&str` / `&[u8]` (directly or inside Option): serde_json can lend a "
                                     "string only when it contains no escape sequence, so `\"caf\\u00e9\"` or `\"a\\\"b\"` would fail where the same value "
